@@ -123,6 +123,22 @@ class _:
         & S.eq(result[1], S.upk('H', S.slice(payload, 2, 4))) & S.eq(result[2], S.upk('H', S.slice(payload, 4, 6)))
         & S.is_slice(result[3], payload, 6, S.len(payload)),
     }
+    returns = lambda E, args: (S.upk('H', S.slice(args['payload'], 0, 2)), S.upk('H', S.slice(args['payload'], 2, 4)),
+                               S.upk('H', S.slice(args['payload'], 4, 6)), S.slice(args['payload'], 6, S.len(args['payload'])))
+
+
+def parse_result(E):
+    ip = E.ip
+    def i(n):
+        t = ip.ctx.fresh(n, z3.IntSort())
+        ip.ctx.assume(z3.And(t >= 0, t <= 65535))
+        ops.declare_bounds(t, 0, 65535)
+        return Sym(t, 'int')
+    d = ip.ctx.fresh('frag_data', BytesSort)
+    n = ip.ctx.fresh('frag_data_len', z3.IntSort())
+    ip.ctx.assume(n >= 0)
+    ops.set_len_term(d, n)
+    return (i('frag_id'), i('frag_index'), i('frag_count'), Sym(d, 'bytes'))
 
 
 def opt_bytes_kind():
@@ -142,6 +158,7 @@ def opt_bytes_kind():
             return mk_(z3.BoolVal(True), S.term(v))
         k = Kind('custom', None, (ts, wrap, unwrap))
         k.truthy = lambda t: z3.And(a_f(t), z3.Length(a_b(t)) > 0)
+        k.join = (z3.Function('join_slots_in_list_order', z3.ArraySort(z3.IntSort(), ts), z3.IntSort(), BytesSort), a_f, a_b)
         opt_bytes_kind.k = k
         opt_bytes_kind.acc = (a_f, a_b)
     return opt_bytes_kind.k
@@ -335,7 +352,7 @@ def connected(x):
     return S.enum_is(x.status, x.status.cls.class_attrs['CONNECTED'])
 
 
-@contract('connection.ConnectionBase.send', props=['C06', 'C05', 'C09'], variant='single-datagram')
+@contract('connection.ConnectionBase.send', props=['C06', 'C05', 'C09', 'C03'], variant='single-datagram')
 class _:
     """payloads up to the single-datagram limit are NOT fragmented: exactly one APP message carrying the very payload"""
     def setup(E):
@@ -408,3 +425,247 @@ class _:
                           dom(self.pending_fragments, S.term(self.seq_fragment, 'int')))) & connected(old.self))
             if hasattr(ghost, 'n_fragments') else (S.bool(self.outgoing_messages.n == old.self.outgoing_messages.n) & S.Not(connected(old.self))),
     }
+
+
+# ------------------------------------------------------------------------------------------ FragmentReceiver.isComplete / payload
+JOIN = z3.Function('bytes_join_in_list_order', z3.ArraySort(z3.IntSort(), BytesSort), z3.IntSort(), BytesSort)
+
+
+def slots_setup(E, all_filled=False):
+    frs = E.symseq('slots', opt_bytes_kind())
+    return E.obj(FR, tag='self', conn=None, fragments=frs, ctime=E.real('ctime'), msgseq=E.int('r_msgseq', cls=SEQ, lo=0, hi=S.M),
+                 frag_count=E.int('frag_count', lo=0))
+
+
+@contract('connection.FragmentReceiver.isComplete', props=['C06', 'C04'])
+class _:
+    """complete exactly when EVERY slot holds a (non-empty) fragment: true implies slot j is filled for every j (Skolem), and an
+    empty slot anywhere makes it false"""
+    def setup(E):
+        return dict(self=slots_setup(E))
+    skolems = {'j': 'int'}
+    ensures = {
+        'complete-implies-every-slot-filled': lambda self, result, j: S.implies(
+            result & (0 <= j) & S.bool(S.term(j) < self.fragments.n), S.bool(opt_bytes_kind.acc[0](z3.Select(self.fragments.arr, S.term(j))))),
+        'an-unfilled-slot-means-not-complete': lambda self, result, j: S.implies(
+            (0 <= j) & S.bool(z3.And(S.term(j) < self.fragments.n, z3.Not(opt_bytes_kind.acc[0](z3.Select(self.fragments.arr, S.term(j)))))),
+            S.Not(result)),
+        'all-slots-filled-with-data-means-complete': lambda self, result: S.implies(S.bool(all_filled_term(self.fragments)), result),
+    }
+    returns = 'bool'
+    modifies = []
+
+
+def all_filled_term(f):
+    a_f, a_b = opt_bytes_kind.acc
+    k = z3.Int('k!filled')
+    return z3.ForAll([k], z3.Implies(z3.And(k >= 0, k < f.n), z3.And(a_f(z3.Select(f.arr, k)), z3.Length(a_b(z3.Select(f.arr, k))) > 0)))
+
+
+@contract('connection.FragmentReceiver.payload', props=['C06'])
+class _:
+    """the reassembled message is the concatenation of the slots IN INDEX ORDER (so, with receive's 'slot index-1 holds fragment
+    index' and build's 'fragments concatenate to the payload', the bytes the peer sent): stated through the prefix function of
+    the join, checked explicitly for one and two fragments; an unfilled slot raises TypeError instead of being skipped"""
+    def setup(E):
+        return dict(self=slots_setup(E))
+    raises = {'type-error-iff-a-slot-is-unfilled': ('TypeError', lambda self: S.Not(S.bool(every_slot_filled(self.fragments))))}
+    ensures = {
+        'one-fragment': lambda self, result: S.implies(S.bool(self.fragments.n == 1), S.bool(S.term(result) == opt_bytes_kind.acc[1](z3.Select(self.fragments.arr, 0)))),
+        'two-fragments-in-index-order': lambda self, result: S.implies(S.bool(self.fragments.n == 2), S.bool(S.term(result) == z3.Concat(
+            opt_bytes_kind.acc[1](z3.Select(self.fragments.arr, 0)), opt_bytes_kind.acc[1](z3.Select(self.fragments.arr, 1))))),
+        'last-fragment-comes-last': lambda self, result: S.implies(S.bool(self.fragments.n >= 1), S.bool(z3.SuffixOf(
+            opt_bytes_kind.acc[1](z3.Select(self.fragments.arr, self.fragments.n - 1)), S.term(result)))),
+    }
+    returns = 'bytes'
+    modifies = []
+
+
+def every_slot_filled(f):
+    k = z3.Int('k!slot')
+    return z3.ForAll([k], z3.Implies(z3.And(k >= 0, k < f.n), opt_bytes_kind.acc[0](z3.Select(f.arr, k))))
+
+
+# ------------------------------------------------------------------------------------------ ConnectionBase._recvAppFragment
+# The reassembly contexts are references in the table received_fragments; FragmentReceiver's methods are used through recorded
+# models here (each has its own verified contract above): what is decided is the CONTROL logic - which context gets which
+# fragment, when a message is handed over, with what, and that the context goes away.
+EXPIRED = z3.Function('receiver_expired', z3.IntSort(), z3.BoolSort())
+from contracts.c08_bitfield import recv as in_view
+
+
+def completed_recently(conn, fid):
+    """the fragment id is in the window of recently completed fragmented messages (view of bitfield_frag: the newest completed
+    id and the 256 before it)"""
+    bf = conn.bitfield_frag
+    return in_view(bf.current_seqnum, bf.bits, 256, fid)
+
+
+def not_behind_the_window(conn, fid):
+    cur = conn.bitfield_frag.current_seqnum
+    d = S.rdist(cur, fid)                 # how far behind the newest completed id
+    ahead = S.rdist(fid, cur)
+    return (S.ival(cur) == 0) | ((1 <= ahead) & (ahead <= S.T)) | ((0 <= d) & (d <= 256))
+
+
+def replay_f10(label, model):
+    if 'not-reassembled-again' not in label:
+        return None
+    import os
+    here = os.path.dirname(os.path.dirname(os.path.abspath(__file__)))
+    return open(os.path.join(here, 'notes', 'replays', 'f10_fragment_redelivery.py')).read()
+
+
+COMP_SRC = '[frag_id for frag_id, receiver in self.received_fragments.items() if receiver.expired()]'
+
+
+def fr_new(ip, info, conn, count, ctime):
+    so = ip.new_symobj(info)
+    ip.state.events.append(('FR.new', (so, count), {}))
+    return so
+
+
+def fr_receive(ip, self, index, msgseq, fragment):
+    ip.state.events.append(('FR.receive', (self, index, msgseq, fragment), {}))
+    # (receive may set the context's message seq: its own contract)
+    arr, kind = ip.state.fields[('FragmentReceiver', 'msgseq')]
+    t = ip.ctx.fresh('ctx_msgseq', z3.IntSort())
+    ip.ctx.assume(z3.And(t >= 0, t <= S.M))
+    ip.state.fields[('FragmentReceiver', 'msgseq')] = (z3.Store(arr, self.ref, t), kind)
+    return None
+
+
+def fr_is_complete(ip, self):
+    r = Sym(ip.ctx.fresh('complete', z3.BoolSort()), 'bool')
+    ip.state.events.append(('FR.isComplete', (self, r), {}))
+    return r
+
+
+def fr_payload(ip, self):
+    t = ip.ctx.fresh('reassembled', BytesSort)
+    ops.set_len_term(t, ip.ctx.fresh('reassembled_len', z3.IntSort()))
+    r = Sym(t, 'bytes')
+    ip.state.events.append(('FR.payload', (self, r), {}))
+    return r
+
+
+def fr_expired(ip, self):
+    return ops.sbool(EXPIRED(self.ref))
+
+
+def recv_app_model(ip, self, msgseq, msg):
+    ip.state.events.append(('_recvApp', (msgseq, msg), {}))
+    return None
+
+
+def expired_keys(ip, frame, node):
+    """the list comprehension over received_fragments.items(): some enumeration of exactly the ids whose context is expired
+    (dict iteration contract, pointwise)"""
+    self = frame.locals['self']
+    m = self.attrs['received_fragments']
+    arr = ip.ctx.fresh('expired_ids', z3.ArraySort(z3.IntSort(), z3.IntSort()))
+    n = ip.ctx.fresh('n_expired', z3.IntSort())
+    ip.ctx.assume(n >= 0)
+    s = SymSeq(arr, n, Kind('int'))
+
+    class Facts:
+        def on_read(self_, ip2, seq, i, el):
+            k = z3.Select(arr, i)
+            ip2.ctx.assume(z3.And(z3.Select(m.dom, k), EXPIRED(z3.Select(m.val, k))))
+    s.facts = Facts()
+    return s
+
+
+RAF_HOOKS = {'class:connection.FragmentReceiver': fr_new, 'model:connection.FragmentReceiver.receive': fr_receive,
+             'model:connection.FragmentReceiver.isComplete': fr_is_complete, 'model:connection.FragmentReceiver.payload': fr_payload,
+             'model:connection.FragmentReceiver.expired': fr_expired, 'model:connection.ConnectionBase._recvApp': recv_app_model,
+             'comprehension:' + COMP_SRC: expired_keys}
+
+
+def raf_setup(E):
+    E.alloc()
+    E.field(FR, 'msgseq', E.kind('int', SEQ), inv=lambda t: z3.And(t >= 0, t <= S.M))
+    self = make_conn(E, received_fragments=E.symmap('received_fragments', E.kind('int'), E.kind('obj', FR), with_size=False))
+    frag = E.bytes('fragment')
+    # BitField.insert / contains state their view clauses at a Skolem x: used here at the inserted / tested id itself
+    E.instance('x', lambda env: S.ival(env['seqnum']))
+    return dict(self=self, msgseq=E.int('msgseq', cls=SEQ, lo=1, hi=S.M), fragment=frag)
+
+
+def parsed(fragment):
+    return (S.upk('H', S.slice(fragment, 0, 2)), S.upk('H', S.slice(fragment, 2, 4)), S.upk('H', S.slice(fragment, 4, 6)))
+
+
+def routed_clause(old, events, msgseq, fragment):
+    fid, index, count = parsed(fragment)
+    rc = [e for e in events if e[0] == 'FR.receive']
+    new = [e for e in events if e[0] == 'FR.new']
+    if len(rc) != 1 or len(new) > 1:
+        return False
+    ctx_, i, ms, data = rc[0][1]
+    m0 = old.self.received_fragments
+    had = z3.Select(m0.dom, S.term(fid, 'int'))
+    target = ctx_.ref == (new[0][1][0].ref if new else z3.Select(m0.val, S.term(fid, 'int')))
+    fresh_iff_unknown = z3.Not(had) if new else had
+    count_ok = S.eq(new[0][1][1], count) if new else True
+    return (S.bool(z3.And(target, fresh_iff_unknown)) & S.eq(i, index) & (ms is msgseq) & S.is_slice(data, fragment, 6, S.len(fragment)) & count_ok)
+
+
+def delivery_clause(self, events, fragment):
+    fid = S.term(parsed(fragment)[0], 'int')
+    comp = [e for e in events if e[0] == 'FR.isComplete']
+    pay = [e for e in events if e[0] == 'FR.payload']
+    dl = [e for e in events if e[0] == '_recvApp']
+    rc = [e for e in events if e[0] == 'FR.receive']
+    if len(rc) != 1 or len(comp) < 1:
+        return False
+    ctx_ = rc[0][1][0]
+    asked = comp[0][1][0].ref == ctx_.ref
+    if len(dl) == 0:
+        return S.bool(asked) & S.Not(comp[0][1][1])
+    if len(dl) != 1 or len(pay) != 1:
+        return False
+    # handed over exactly once, with the context's own message seq and its reassembled bytes, and the context is gone
+    ms, msg = dl[0][1]
+    return (S.bool(z3.And(asked, pay[0][1][0].ref == ctx_.ref)) & comp[0][1][1] & (msg is pay[0][1][1])
+            & S.Not(S.bool(z3.Select(self.received_fragments.dom, fid))))
+
+
+@contract('connection.ConnectionBase._recvAppFragment', props=['C06', 'C04'])
+class _:
+    """control logic of reassembly, for every fragment and every table of contexts: the fragment is stored in the context of ITS
+    fragment id (created with the announced count iff none exists), with ITS index, message seq and data bytes; the message is
+    handed to _recvApp exactly when that context reports complete, once, with the context's reassembled bytes, and the context
+    is then removed; the expiry sweep removes only expired contexts."""
+    setup = raf_setup
+    replay = replay_f10
+    skolems = {'k': 'int', 'x': 'int', 'j': 'int'}
+    hooks = RAF_HOOKS
+    uses = ['connection.FragmentSender.parsePayload', 'connection.BitField.contains', 'connection.BitField.insert']
+    loops = {0: LoopSpec(label='expiry-sweep', havoc=['self.received_fragments'], instances=lambda env: [{'k': env['frag_id']}], invariant={
+        'only-expired-contexts-are-removed': lambda old, self, k, ghost: S.bool(z3.Implies(
+            z3.And(z3.Select(ghost.after_delivery_dom, S.term(k)), z3.Not(EXPIRED(z3.Select(ghost.after_delivery_val, S.term(k))))),
+            z3.And(z3.Select(self.received_fragments.dom, S.term(k)),
+                   z3.Select(self.received_fragments.val, S.term(k)) == z3.Select(ghost.after_delivery_val, S.term(k))))),
+        'nothing-is-added': lambda self, k, ghost: S.bool(z3.Implies(z3.Select(self.received_fragments.dom, S.term(k)),
+                                                                     z3.Select(ghost.after_delivery_dom, S.term(k))))},
+        ghost_init=lambda ip, frame, env: ip.state.ghost.update(after_delivery_dom=env['self'].attrs['received_fragments'].dom,
+                                                                after_delivery_val=env['self'].attrs['received_fragments'].val))}
+    ensures = {
+        'fragment-is-stored-in-the-context-of-its-own-id': lambda old, events, msgseq, fragment: S.implies(
+            S.Not(completed_recently(old.self, parsed(fragment)[0])), routed_clause(old, events, msgseq, fragment)),
+        'handed-over-exactly-when-complete-then-forgotten': lambda old, self, events, fragment: S.implies(
+            S.Not(completed_recently(old.self, parsed(fragment)[0])), delivery_clause(self, events, fragment)),
+        # (ids are on the ring 1..65535; an id more than 256 completed messages behind the newest falls out of the window and
+        # is not remembered - the same limit as the message window, F4)
+        'a-delivered-message-is-remembered': lambda old, self, events, fragment: S.implies(
+            (len([e for e in events if e[0] == '_recvApp']) == 1) & (parsed(fragment)[0] >= 1) & not_behind_the_window(old.self, parsed(fragment)[0]),
+            completed_recently(self, parsed(fragment)[0])),
+        # C04 / plan F10: the sender re-sends a timed-out fragment under a fresh message seq, so the message-level window cannot
+        # stop it; once the message was handed over its context is gone and the late copies used to start a new one (delivered
+        # twice; repaired: the ids of recently completed messages are remembered in bitfield_frag)
+        'a-delivered-message-is-not-reassembled-again': lambda old, events, fragment: S.implies(
+            completed_recently(old.self, parsed(fragment)[0]),
+            len([e for e in events if e[0] in ('FR.new', 'FR.receive', '_recvApp')]) == 0),
+    }
+    may_raise = ['struct.error']
